@@ -145,6 +145,34 @@ compile_error!(
      AtomicU64. Disable the feature on this target."
 );
 
+// Verification hook H2: named pause points. Inert (one relaxed load) unless a hook is installed.
+#[cfg(redb_verif)]
+pub mod verif_sched {
+    use std::sync::atomic::{AtomicBool, Ordering};
+    use std::sync::{Arc, RwLock};
+
+    pub type Hook = Arc<dyn Fn(&'static str) + Send + Sync>;
+    static INSTALLED: AtomicBool = AtomicBool::new(false);
+    static HOOK: RwLock<Option<Hook>> = RwLock::new(None);
+
+    pub fn set_pause_hook(hook: Option<Hook>) {
+        let mut guard = HOOK.write().unwrap();
+        INSTALLED.store(hook.is_some(), Ordering::Release);
+        *guard = hook;
+    }
+
+    #[inline]
+    pub(crate) fn pause(point: &'static str) {
+        if !INSTALLED.load(Ordering::Acquire) {
+            return;
+        }
+        let hook = HOOK.read().unwrap().clone();
+        if let Some(hook) = hook {
+            hook(point);
+        }
+    }
+}
+
 #[cfg(not(redb_no_std))]
 pub(crate) fn panicking() -> bool {
     std::thread::panicking()
